@@ -18,6 +18,7 @@ import (
 
 	"github.com/go-critic/go-critic/linter"
 
+	"verifharness/internal/c04"
 	"verifharness/internal/common"
 	"verifharness/internal/coqfmt"
 	"verifharness/internal/fw"
@@ -253,6 +254,7 @@ func Run(tier string, seed int64, outDir string) *common.Meta {
 
 	// ---- separate processes ----
 	cliStream(meta, tier, genDir, s1, cliRuns)
+	analysisStream(meta, tier, outDir)
 
 	meta.AddSample(map[string]interface{}{"generated": "dup<g>_<i>: g duplicate-import groups; shadow<k>_<i>: k shadowed imports", "example": readFirst(filepath.Join(genDir, "dup3_0", "a.go"))})
 	meta.Rule = "every (checker, file) over S1 + S2 + generated packages (1-5 duplicate-import groups, 2-6 shadowed imports): N ordered warning lists from a reused instance and from brand-new instances must be equal; " +
@@ -386,6 +388,116 @@ func cliStream(meta *common.Meta, tier, genDir string, s1 []*fw.Pkg, runs int) {
 		}
 	}
 	meta.Distribution["cli_processes"] = total
+}
+
+// analysisStream repeats the go/analysis front-end (parallel driver: one pass per package, checkers constructed per
+// pass) on a multi-package workspace; every run must print the same diagnostics and end the same way.
+func analysisStream(meta *common.Meta, tier, outDir string) {
+	bin := filepath.Join(common.BinDir(), "go-critic-analysis")
+	if _, err := os.Stat(bin); err != nil {
+		meta.TieBroken = append(meta.TieBroken, "go-critic-analysis binary missing: "+err.Error())
+		return
+	}
+	ws := filepath.Join(outDir, "ws_analysis")
+	os.RemoveAll(ws)
+	nPkgs, nFiles, runs := 10, 4, 6
+	if tier == "thorough" {
+		nPkgs, nFiles, runs = 16, 6, 30
+	}
+	c04.Workspace(ws, nPkgs, nFiles)
+	args := []string{"-enable-all", "-disable=", "./..."}
+	norm := func(so, se string, code int) (string, []string) {
+		var ls []string
+		for _, l := range strings.Split(se+"\n"+so, "\n") {
+			if strings.TrimSpace(l) != "" {
+				ls = append(ls, l)
+			}
+		}
+		// the driver analyses packages concurrently and prints per package: the order of package blocks is its business,
+		// the multiset of lines and the exit status are ours
+		sort.Strings(ls)
+		return fmt.Sprintf("exit=%d\n", code) + strings.Join(ls, "\n"), ls
+	}
+	var first string
+	var firstLines []string
+	n := 0
+	for r := 0; r < runs; r++ {
+		so, se, code, err := common.RunSplit(240*time.Second, ws, common.GoEnv("GOMAXPROCS=16"), bin, args...)
+		n++
+		if err != nil {
+			meta.Fail("C02/analyzer/run", "go-critic-analysis did not finish: "+err.Error(), args)
+			break
+		}
+		out, ls := norm(so, se, code)
+		if r == 0 {
+			first, firstLines = out, ls
+			meta.AddSample(map[string]interface{}{"analysis_workspace": fmt.Sprintf("%d packages x %d files", nPkgs, nFiles), "exit": code, "lines": len(ls)})
+			if len(ls) < 10 {
+				meta.Fail("C02/analyzer/run", "hardly any diagnostics from go-critic-analysis (stream would be vacuous): "+tail(out), args)
+			}
+			continue
+		}
+		if out == first {
+			continue
+		}
+		// attribute to checkers where the lines name one
+		per := map[string][2][]string{}
+		for i, l := range [][]string{firstLines, ls} {
+			for _, line := range l {
+				name := "analyzer"
+				if m := anDiagRE.FindStringSubmatch(line); m != nil {
+					name = m[1]
+				} else if strings.Contains(line, "panic") || strings.Contains(line, "goroutine ") || strings.HasPrefix(line, "\t") || strings.Contains(line, ".go:") {
+					name = "analyzer-crash"
+				}
+				e := per[name]
+				e[i] = append(e[i], line)
+				per[name] = e
+			}
+		}
+		// a crashing run truncates everybody's output: then name the crash and the checkers that occur in its stack only
+		crashText := ""
+		if e, ok := per["analyzer-crash"]; ok && strings.Join(e[0], "\n") != strings.Join(e[1], "\n") {
+			crashText = strings.ToLower(strings.Join(e[0], "\n") + "\n" + strings.Join(e[1], "\n"))
+		}
+		for name, e := range per {
+			if strings.Join(e[0], "\n") == strings.Join(e[1], "\n") {
+				continue
+			}
+			if crashText != "" && name != "analyzer-crash" && !strings.Contains(crashText, strings.ToLower(name)+"_checker.go") {
+				continue
+			}
+			cls := "unstable-content"
+			if name == "analyzer-crash" {
+				cls = "unstable-crash"
+			}
+			meta.Fail("C02/"+name+"/"+cls, fmt.Sprintf("%s: two go-critic-analysis processes on the same workspace differ (run 1 vs run %d)", name, r+1),
+				map[string]interface{}{"dir": ws, "args": args, "workspace": "harness/internal/c04.Workspace", "only_in_run_1": diffOnly(e[0], e[1]), "only_in_run_k": diffOnly(e[1], e[0])})
+		}
+		break
+	}
+	meta.Distribution["analysis_processes"] = n
+}
+
+var anDiagRE = regexp.MustCompile(`^\S+\.go:\d+:\d+: (\w+): `)
+
+func diffOnly(a, b []string) []string {
+	mb := map[string]int{}
+	for _, l := range b {
+		mb[l]++
+	}
+	var d []string
+	for _, l := range a {
+		if mb[l] > 0 {
+			mb[l]--
+		} else {
+			d = append(d, l)
+		}
+	}
+	if len(d) > 8 {
+		d = d[:8]
+	}
+	return d
 }
 
 func clipArgs(a []string) []string {
